@@ -20,29 +20,38 @@ from html.parser import HTMLParser
 from .common import Ctx, Driver, rng_for
 
 MANIFEST = dict(
-    text=("Lean theorems (explicit exceptions, all inputs): the constructor's retry loop at the level of object fields \u2014 what a feed "
-          "starts from is a function of the strategy and of the fields no attempt writes (reset_absorbs), after any number of rejected "
-          "strategies the result is field for field a clean attempt of the accepting one (retry_first_accept), all rejected = "
-          "ParserRejectedMarkup (retry_all_reject), foreign exceptions propagate (retry_raise_propagates, retry_by_index); over the "
-          "field tables instrumented from the live objects every attribute a feed touches is re-assigned per attempt "
-          "(feed_touches_reassigned, header_and_reset_fields); the pre-parse heuristics are total on every str incl. lone surrogates and "
-          "every bytes (heuristics_total) and the unrepaired mirror fails exactly on short tag-less non-URL str with a surrogate "
-          "(heuristicsOld_error_iff, heuristicsOld_fails, heuristics_agree_old); handle_charref hands a non-empty text to handle_data for "
-          "every name and every one-byte decoder behaviour (charref_total, charref_spec, charrefSpec_identity, cp1252_table over the live "
-          "codec, handleCharrefOld_errors, charref_agree_old, witnesses handleCharrefOld_fails_long_decimal/_codec); UnicodeDammit's two "
-          "passes end in text whenever one non-'ascii' candidate decodes with errors=replace (dammit_some_of_fallback) and prepare_markup "
-          "yields one strategy or raises ParserRejectedMarkup (prepare_outcome); feed wraps AssertionError/ValueError (feed_outcome) and "
-          "constructor_outcome: tree or ParserRejectedMarkup GIVEN that CPython's tokenizer raises nothing else (measured hypothesis; "
-          "foreign_exception_propagates shows the model hides nothing). Tie: generated inputs of the quantifier's classes through the real "
-          "constructor (outcome class, warning, every character reference) against the model, an instrumented UnicodeDammit against the "
-          "model of its passes, fault injection through a harness TreeBuilder, and a direct oracle (no other exception; tree well linked, "
-          "renderable, searchable, copyable)."),
+    text=("Lean theorems with explicit Python exception classes (the class lattice = the live __mro__s, mro_table). ENVELOPE: every operation "
+          "below the constructor that can raise is a primitive free to raise any class (UnicodeDammit/EncodingDetector generator, codecs.lookup, "
+          "str(bytes,codec,errors), Logger.warning, the declared_html_encoding property, warnings.warn, reset/initialize_soup, the parser object, "
+          "both tokenizer phases feed/close, every handle_* callback, int()/chr()/one-byte decodes, the end-of-input flush) and every try/except "
+          "of the repository is a clause (Code); `envelope`: for every clause variant that Covers (decidable) the recorded kinds, every behaviour "
+          "of the primitives within them, every object, every str/bytes markup, the constructor ends in a tree or ParserRejectedMarkup "
+          "(envelope_live for the working tree, v4130_does_not_cover for 4.13.0 as shipped); tightness: lookup_escapes, decode_escapes, "
+          "generator_escapes (PEP 479 included), feed_converts, tokenizer_escapes, close_must_be_guarded, convert_clause_must_be_broad; "
+          "injection_table: the whole primitive-level injection matrix of the LIVE constructor (16 primitives x 33 classes, run by the translator) "
+          "equals the model's prediction. STATE: reset_absorbs, retry_first_accept, retry_all_reject, retry_raise_propagates, retry_by_index, "
+          "retry_ok_state and constructE_ok_state (whenever the constructor returns, on any call path, the object is field for field one complete "
+          "clean accepted attempt; machineE_wf derives the frame conditions from the callbacks'), feed_touches_reassigned / "
+          "header_and_reset_fields over the field tables instrumented from the live objects. PIECES: heuristics_total, heuristicsOld_error_iff, "
+          "heuristics_agree_old; charref_total, charref_spec, charrefSpec_identity, cp1252_table, handleCharrefOld_errors, charref_agree_old, "
+          "charref_envelope_live/_v4130/_spec (the concrete conversion is the envelope model at CPython's int/chr/codecs); "
+          "dammit_some_of_fallback, dammit_envelope_refines, dammitE_some_of_fallback, prepare_outcome; constructor_outcome, feed_outcome; witnesses "
+          "on the unrepaired mirrors; live_code_returns_on_witnesses. Tie: generated inputs of the quantifier's classes through the real "
+          "constructor (outcome class, locator warning, every character reference) against the model; every primitive recorded on every input "
+          "(classes raised must be recorded kinds); injection of every class at every primitive on several documents against `predict`; "
+          "UnicodeDammit with individual lookups/decodings/the generator/the log call made to raise against `dammitE`; an instrumented "
+          "UnicodeDammit against the model of its passes; fault injection through a harness TreeBuilder and across documents (shared builder); "
+          "direct oracle (no other exception; tree well linked, renderable, searchable, copyable; ParserRejectedMarkup only with a cause)."),
     design="7/C06",
-    note=("PARTIAL: CPython's html.parser tokenizer and codecs are outside the repository; that the tokenizer raises nothing but "
-          "AssertionError/ValueError is measured on every generated input (plain HTMLParser run), not proved. Non-str/bytes markup "
-          "(TypeError by design, pinned by test_invalid_markup_type) and non-str encoding arguments are outside the quantifier and only "
-          "recorded. Deep nesting is kept below 200 in the post-construction checks (C11's recursion findings)."),
-    technique="Lean 4 proof with explicit exceptions + generated tables from the live objects + differential correspondence + direct Python oracle + fault injection",
+    note=("PARTIAL. Trusted residue, named: `Prims.Within Gen.C06.recorded` - CPython's codecs.lookup raises only LookupError/ValueError/"
+          "UnicodeEncodeError; str(bytes,codec,errors) only LookupError/ValueError/UnicodeEncodeError/UnicodeDecodeError/UnicodeError; html.parser's "
+          "goahead only AssertionError/ValueError; int() only ValueError; chr() only ValueError/OverflowError; one-byte decodes only "
+          "UnicodeDecodeError/UnicodeError; warnings.warn (filters not 'error'), Logger.warning, find_declared_encoding, reset, the parser "
+          "constructor and the tree-building callbacks (C03/C04's models) never raise. Measured on every run: each primitive is wrapped and the exact "
+          "classes it raises are compared with these lists. That the tree is well linked for every event sequence is C03's theorem "
+          "(parsed_document_well_linked); renderable/searchable/copyable is the Python oracle here and C05/C08/C10/C11/C12's theorems. Non-str/bytes "
+          "markup (TypeError by design) and non-str encoding arguments are outside the quantifier and only recorded."),
+    technique="Lean 4 proof with explicit exception classes + generated tables from the live objects (field sets, MROs, injection matrix) + differential correspondence + direct Python oracle + fault injection at builder and primitive level",
 )
 
 logging.disable(logging.CRITICAL)
@@ -373,6 +382,13 @@ def eval_case(case):
     text = None if st is None else st[0]
     tok, names = ("ok", []) if text is None else plain_tokenize(text)
     rec["tok"] = tok
+    # recorded facts about where CPython's tokenizer gives up: AssertionError only behind a "<!", ValueError only for a decimal
+    # reference beyond the digit limit inside a tag
+    rec["tok_fact"] = None
+    if tok == "assert" and "<!" not in text:
+        rec["tok_fact"] = "AssertionError without any '<!' in the text"
+    if tok == "value" and not re.search(r"<[^<>]*&#[0-9]{4301,}", text):
+        rec["tok_fact"] = "ValueError without a decimal reference of more than 4300 digits inside a tag"
     rec["names_ok"] = all(NAME_RE.match(n) for n in names)
     rec["nrefs"] = len(names)
     rec["longref"] = any(len(n) > 4300 for n in names)
@@ -1183,6 +1199,149 @@ def stream_inject(ctx, drv):
     ctx.exhaustive_parts.append(f"injection: all {len(E.POINTS)} primitives x all {len(classes)} classes x 3 documents; issubclass on all class pairs")
 
 
+def stream_dammit_raising(ctx, drv, byte_cases):
+    """UnicodeDammit with individual primitive calls made to raise (a spelling's codecs.lookup, one (codec, errors) decoding, the
+    declaration search inside the candidate generator, the log call) against `dammitE`: which exceptions `_codec` and
+    `_convert_from` absorb, what leaves, and how the two passes go on afterwards"""
+    import bs4.dammit as D
+    from bs4.dammit import UnicodeDammit, EncodingDetector
+    from . import c06_envelope as E
+    table = E.class_table()
+    pool = [UnicodeDecodeError, LookupError, ValueError, TypeError, UnicodeError, E.HarnessError, KeyboardInterrupt, E.HarnessBaseError,
+            StopIteration, table["parserRejectedMarkup"], AssertionError, RecursionError, UnicodeEncodeError]
+    r = ctx.rng("dammit-raising")
+    sample = [c for c in byte_cases if isinstance(c[1], bytes) and c[1] != b""]
+    r.shuffle(sample)
+    sample = sample[: ctx.n(1200, 20000)]
+    log = logging.getLogger("bs4.dammit")
+    lines, impl, cases = [], [], []
+
+    class Sentinel(Exception):
+        pass
+
+    real_fde = EncodingDetector.__dict__["find_declared_encoding"]
+    real_to_unicode = UnicodeDammit._to_unicode
+    real_codecs = D.codecs
+    for stream, markup, kwargs, _ in sample:
+        fe = kwargs.get("from_encoding") or None
+        ex = kwargs.get("exclude_encodings")
+
+        def make():
+            return UnicodeDammit(markup, known_definite_encodings=[fe] if fe else [], user_encodings=[], is_html=True, exclude_encodings=ex)
+        try:
+            with warnings.catch_warnings():
+                warnings.simplefilter("ignore")
+                d0 = make()
+                encs = list(d0.detector.encodings)
+                # the candidates yielded before the declaration is looked for
+                det = EncodingDetector(markup, [fe] if fe else [], True, ex, [])
+                pre = []
+                EncodingDetector.find_declared_encoding = classmethod(lambda cls, *a, **k: (_ for _ in ()).throw(Sentinel()))
+                try:
+                    for e in det.encodings:
+                        pre.append(e)
+                except Sentinel:
+                    pass
+                finally:
+                    EncodingDetector.find_declared_encoding = real_fde
+        except Exception:  # noqa (reported by the other streams)
+            continue
+        sp_id, codec_id, name_id = {}, {}, {}
+
+        def spellings(e):
+            if not e:
+                return []
+            return [x for x in (UnicodeDammit.CHARSET_ALIASES.get(e, e), e.replace("-", ""), e.replace("-", "_")) if x]
+        plan_lookup, plan_decode = {}, {}
+        gen_raise = r.choice(pool) if r.random() < 0.12 else None
+        log_raise = r.choice(pool) if r.random() < 0.12 else None
+        spell_rows, look_rows, canon_rows, low_rows, tab_rows = [], [], [], [], []
+        for e in encs:
+            name_id.setdefault(e, len(name_id) + 1)
+            sps = spellings(e)
+            for x in sps:
+                if x not in sp_id:
+                    sp_id[x] = len(sp_id) + 1
+                    if r.random() < 0.15:
+                        plan_lookup[x] = r.choice(pool)
+                        look_rows.append(f"{sp_id[x]}:!{E.proto_name(plan_lookup[x])}")
+                    else:
+                        try:
+                            real_codecs.lookup(x)
+                            look_rows.append(f"{sp_id[x]}:ok")
+                        except Exception as exn:  # noqa
+                            look_rows.append(f"{sp_id[x]}:!{E.proto_name(type(exn))}")
+                    codec_id.setdefault(x.lower(), len(codec_id) + 1)
+                    canon_rows.append(f"{sp_id[x]}:{codec_id[x.lower()]}")
+            spell_rows.append(f"{name_id[e]}:{'.'.join(str(sp_id[x]) for x in sps)}")
+            if e:
+                codec_id.setdefault(e.lower(), len(codec_id) + 1)
+                low_rows.append(f"{name_id[e]}:{codec_id[e.lower()]}")
+        for c, cid in codec_id.items():
+            row = []
+            for errors in ("strict", "replace"):
+                if r.random() < 0.25:
+                    plan_decode[(c, errors)] = r.choice(pool)
+                    row.append("!" + E.proto_name(plan_decode[(c, errors)]))
+                else:
+                    try:
+                        u = str(d0.markup, c, errors)
+                        row.append("z" if u == "" else "t")
+                    except Exception as exn:  # noqa
+                        row.append("!" + E.proto_name(type(exn)))
+            tab_rows.append(f"{cid}:{row[0]}:{row[1]}")
+        if gen_raise is not None:
+            cand_tok = ",".join([str(name_id[e]) for e in pre] + ["!" + E.proto_name(gen_raise)])
+        else:
+            cand_tok = ",".join(str(name_id[e]) for e in encs) or "-"
+        # ---- the real code under the same plan
+        D.codecs = E._Shim(real_codecs, lookup=lambda nm: (_ for _ in ()).throw(E.make_exc(plan_lookup[nm])) if nm in plan_lookup else real_codecs.lookup(nm))
+        UnicodeDammit._to_unicode = (lambda self, data, encoding, errors="strict":
+                                     (_ for _ in ()).throw(E.make_exc(plan_decode[(encoding, errors)])) if (encoding, errors) in plan_decode
+                                     else real_to_unicode(self, data, encoding, errors))
+        if gen_raise is not None:
+            EncodingDetector.find_declared_encoding = classmethod(lambda cls, *a, **k: (_ for _ in ()).throw(E.make_exc(gen_raise)))
+        if log_raise is not None:
+            log.warning = lambda *a, **k: (_ for _ in ()).throw(E.make_exc(log_raise))
+        try:
+            with warnings.catch_warnings():
+                warnings.simplefilter("ignore")
+                d = make()
+            if d.unicode_markup is None:
+                got = f"none repl={1 if d.contains_replacement_characters else 0}"
+            else:
+                got = (f"some enc={codec_id.get(d.original_encoding, 0)} repl={1 if d.contains_replacement_characters else 0} "
+                       f"empty={1 if d.unicode_markup == '' else 0}")
+        except BaseException as exn:  # noqa
+            got = "escapes " + E.proto_name(type(exn))
+        finally:
+            D.codecs = real_codecs
+            UnicodeDammit._to_unicode = real_to_unicode
+            EncodingDetector.find_declared_encoding = real_fde
+            if "warning" in vars(log):
+                del log.warning
+        ascii_ids = ",".join(str(name_id[e]) for e in name_id if e == "ascii") or "-"
+        line = (f"c06 dammite live {cand_tok} {';'.join(spell_rows) or '-'} {';'.join(look_rows) or '-'} {';'.join(canon_rows) or '-'} "
+                f"{';'.join(low_rows) or '-'} {';'.join(tab_rows) or '-'} {ascii_ids} {'ok' if log_raise is None else '!' + E.proto_name(log_raise)}")
+        lines.append(line)
+        impl.append(got)
+        cases.append({"op": "dammit-raising", "markup": enc_markup(markup), "kwargs": enc_kwargs(kwargs), "encodings": encs,
+                      "lookup_raises": {k: v.__name__ for k, v in plan_lookup.items()},
+                      "decode_raises": {f"{k[0]}/{k[1]}": v.__name__ for k, v in plan_decode.items()},
+                      "generator_raises": gen_raise.__name__ if gen_raise else None, "log_raises": log_raise.__name__ if log_raise else None})
+        ctx.case(("DR", markup, repr(sorted(kwargs.items(), key=str)), line) if (plan_lookup or plan_decode or gen_raise or log_raise) else None)
+        ctx.count("dammit-raising:" + got.split()[0])
+    rep = drv.ask(lines)
+    for l, a, b, c in zip(lines, impl, rep, cases):
+        if a != b:
+            ctx.corr_disagreements += 1
+            if capped(ctx, "dammit-raising", "disagree"):
+                continue
+            ctx.violation("model and implementation disagree on UnicodeDammit under raising primitives (which exceptions are absorbed / leave)",
+                          case=c | {"line": l}, observed=a, model=b, stream="dammit-raising", no_failing_input=True)
+    ctx.count("dammit-raising:requests", len(lines))
+
+
 SEQUEL_POISON = ["<br><p>a<![x]>", "<p>text only <![x]", "<pre>\n k<b><![x]", "<a href=\"&#" + "9" * 4301 + ";\">x</a>"]
 SEQUEL_DOCS = ["<p>a</br>b</p>", "x</br></p>y<br>z</br>", "<pre>\n p</pre> <b> </b>", "<br/></br><hr></hr>t", "text"]
 
@@ -1340,6 +1499,8 @@ def aggregate(ctx, drv, cases, results):
         if rec["tok"].startswith("other"):
             ctx.violation("measured hypothesis broken: CPython's tokenizer alone raised " + rec["tok"][6:], case=case, stream=stream,
                           no_failing_input=not rec["outcome"].startswith("other"))
+        if rec.get("tok_fact"):
+            ctx.violation("recorded fact about CPython's tokenizer broken: " + rec["tok_fact"], case=case, stream=stream, no_failing_input=True)
         if not rec["names_ok"]:
             ctx.violation("measured hypothesis broken: the tokenizer delivered a charref name outside [0-9]+|[xX][0-9a-fA-F]+", case=case, stream=stream,
                           no_failing_input=True)
@@ -1428,6 +1589,7 @@ def run(ctx: Ctx):
     check_recorded(ctx, observed, cases)
     stream_charref_direct(ctx, drv)
     stream_dammit(ctx, drv, bytes_cases)
+    stream_dammit_raising(ctx, drv, bytes_cases)
     stream_fault(ctx, drv)
     stream_sequel(ctx)
     stream_inject(ctx, drv)
@@ -1528,6 +1690,12 @@ def replay(path):
             return 1
         print("final object identical to a clean parse of the accepted strategy")
         return 0
+    if c.get("op") == "dammit-raising":
+        print("UnicodeDammit on", describe(dec_markup(c["markup"])), dec_kwargs(c.get("kwargs", {})))
+        print("  codecs.lookup raises:", c["lookup_raises"], "| str() raises:", c["decode_raises"], "| generator raises:", c["generator_raises"],
+              "| log raises:", c["log_raises"])
+        print("  implementation:", v.get("observed"), "| model (dammitE):", v.get("model_reply"))
+        return 1
     if c.get("op") == "dammit":
         from bs4.dammit import UnicodeDammit
         markup, kw = dec_markup(c["markup"]), dec_kwargs(c.get("kwargs", {}))
